@@ -99,19 +99,32 @@ static void settle(JD *d) { /* judge the consumption of the last delivered byte 
 
 /* skipSpacesAndComments (default configuration: no comments) */
 void h_skipSpaces(void) {
+#if ARDUINOJSON_ENABLE_COMMENTS
+  JD *d = mk_state(0); /* comments are consumed too: no restriction on the consumed bytes in this configuration */
+#else
   JD *d = mk_state(1);
+#endif
   _Bool found0 = d->foundSomething_;
   unsigned err = JsonDeserializer_StubReader__skipSpacesAndComments(d);
   settle(d);
   COVER(err == Ok); COVER(err == EmptyInput); COVER(err == IncompleteInput); COVER(err == Ok && g_reads > 1);
-  CHECK(RET_IN(err, Ok, EmptyInput, IncompleteInput), "skipSpaces returns Ok, EmptyInput or IncompleteInput only");
   CHECK(SAFE(d), "C03: SAFE re-established (the terminator is never consumed)");
-  CHECK(!g_bad_consumed, "C16/C10: only SP TAB CR LF are consumed");
   CHECK(LATCHED(d), "the byte that stopped the scan stays in the latch (one look-ahead)");
   unsigned char cur = (unsigned char)d->latch_.current_;
+#if ARDUINOJSON_ENABLE_COMMENTS
+  COVER(err == InvalidInput); COVER(err == IncompleteInput && !found0);
+  CHECK(err == Ok || err == EmptyInput || err == IncompleteInput || err == InvalidInput, "skipSpacesAndComments return codes (comments enabled)");
+  CHECK(err != Ok || (cur != 0 && !IS_WS(cur) && cur != '/' && d->foundSomething_), "Ok: a byte that is neither space nor the start of a comment is waiting");
+  CHECK(err != EmptyInput || (cur == 0 && !found0), "EmptyInput: end of input with nothing found so far");
+  CHECK(err != IncompleteInput || cur == 0, "IncompleteInput: only at the end of the input (also inside an unterminated comment)");
+  CHECK(err != InvalidInput || (cur != '*' && cur != '/'), "InvalidInput: a '/' that does not start a comment; the offending byte is not consumed");
+#else
+  CHECK(RET_IN(err, Ok, EmptyInput, IncompleteInput), "skipSpaces returns Ok, EmptyInput or IncompleteInput only");
+  CHECK(!g_bad_consumed, "C16/C10: only SP TAB CR LF are consumed");
   CHECK(err != Ok || (cur != 0 && !IS_WS(cur) && d->foundSomething_), "Ok: a non-space byte is waiting and something was found");
   CHECK(err != EmptyInput || (cur == 0 && !found0), "EmptyInput: end of input with nothing found so far (only whitespace)");
   CHECK(err != IncompleteInput || (cur == 0 && found0), "IncompleteInput: end of input after something was found");
+#endif
 #ifdef CANARY_SKIPSPACES
   CHECK(err != Ok || g_reads != 2, "canary: deliberately false for a reachable case");
 #endif
